@@ -38,7 +38,8 @@ if [ -n "$(git -C /repo status --porcelain)" ]; then say "RESULT /repo not clean
 git -C /repo apply "$DST"/patch.diff
 mkdir -p /tmp/seedverif_$NAME
 for p in $(echo "$PROP" | tr ',' ' '); do
-  if bin/rlint -repo /repo -prop "$p" -tier quick -verif /tmp/seedverif_$NAME > "$DST"/detect_$p.log 2>&1; then say "check $p: NOT detected (exit 0)"; else say "check $p: DETECTED"; grep -E "VIOLATED|UNDECIDED" "$DST"/detect_$p.log | head -5 | cut -c1-300 | tee -a "$LOG"; fi
+  bin/rlint -repo /repo -prop "$p" -tier quick -verif /tmp/seedverif_$NAME > "$DST"/detect_$p.log 2>&1; rc=$?
+  if [ $rc -eq 0 ]; then say "check $p: NOT detected (exit 0)"; elif [ $rc -eq 1 ]; then say "check $p: DETECTED"; grep -E "VIOLATED|UNDECIDED" "$DST"/detect_$p.log | head -5 | cut -c1-300 | tee -a "$LOG"; else say "check $p: not run (exit $rc)"; rm -f "$DST"/detect_$p.log; fi
 done
 git -C /repo checkout -- .
 rm -rf /tmp/seedverif_$NAME
